@@ -29,6 +29,18 @@ checks = {
  "C18": dict(level="exploration", technique="bounded exhaustive enumeration of key scripts (<= n keys over 20 emacs / 19 vi keys x 3 start buffers) with a differential oracle: typed twice vs recorded + replayed",
    text="For every script K: final (buffer, cursor) of K K typed must equal that of start-record K end-record replay, in the emacs style (C-x ( ... C-x ) C-x e) and the vi style (q a ... q @ a).",
    note="Scripts ending in a numeric argument are excluded (the argument would apply to different keys in the two executions). One known finding: a lone ESC followed by a key forming a bound ESC-sequence in vi macros.", ref="7 C18"),
+ "C03": dict(level="model_checking", technique="exhaustive enumeration of bind tables x key strings on the real dispatcher (keymap replaced by a fresh map, logging probe commands) against a reference longest-match tokenizer model; every model trace replayed on the implementation",
+   text="All tables of 1-2 bindings (thorough: + 3-binding chains) with sequences of length <= 2 over a 4-key alphabet per keymap (incl. ESC / glued ESC-a, a control key, meta-encoded storage, macros with bodies <= 2 keys) in emacs, vi-insert and vi-command, x all key strings of length <= 3 (4) delivered one key per read. The invocation log (command, Keys.Caller(), wait index) is compared with the model: soundness on every input, equality on inputs without dead keys, the shorter-binding rule up to the first dead key.",
+   note="What becomes of keys consumed while ruling a longer binding out is not fixed by the statement (three-valued oracle). Local keymaps (vi-opp, visual, menu-select) are exercised by C01/C14/C17 with their default tables; replacing them is not done (they are process-global maps).", ref="7 C03"),
+ "C05": dict(level="model_checking", technique="deviation-bounded enumeration of delivery plans (every read event of the library is a choice point: how many script bytes arrive, at key reads and at cursor-position-query reads) re-executing the real loop per plan; differential oracle against the default plan",
+   text="For each script of a corpus (all emacs scripts of <= 2 (3) keys over a 12-17 key alphabet + longer hand-written emacs and vi scripts with macros, arguments, completion, search), all plans with <= 2 (3) deviations over a bounded per-event menu, plus whole-script-in-one-read and one-byte-per-read; (line, err) must equal those of the default plan and the call must return.",
+   note="In vi modes plans that change a read boundary directly after ESC (or deliver the byte after a lone ESC during a cursor query) are excluded as the statement says. One known finding (emacs lone ESC with a menu/search active).", ref="7 C05"),
+ "C14": dict(level="exploration", technique="bounded exhaustive product (buffers x cursor x candidate tables x menu key strings x modes x options) on the real loop with a framing oracle evaluated at every wait",
+   text="11 buffers x every cursor position x 7 (12) candidate tables x key strings TAB + <= 2 of 14 menu keys x {emacs, vi-insert} (x 3 option sets thorough): while the menu is active the buffer must be B[:j] + X + B[c:] with X the typed word, a matching candidate or a common prefix; the transition closing the menu must keep the text before the word and after the cursor; C-c (emacs: C-g) in an active menu must restore buffer and cursor without returning.",
+   note="The word being completed starts at or after the last blank before the cursor; accept-and-menu-complete restarts a completion unobservably and ends the judged part of a case.", ref="7 C14"),
+ "C15": dict(level="exploration", technique="bounded exhaustive product (N x shapes x terminal sizes x key programs) on the real loop with a cycle oracle over the observed inserted words",
+   text="Candidate sets of N in {1..12,16,17,25,36,37(,60)} values in 9 shapes (plain, varied length, described, aliased by shared description, tags, mixed, long, wide glyphs) x widths {20,40,80(,131)} x heights {10,24} x 5 key programs (forward 2N+1, backward 2N+1, forward N+k then backward N+k) x 2 buffers: every inserted word is a candidate, every window of N presses in one direction is duplicate-free, press N+1 equals press 1, N=1 is accepted at once.",
+   note="Buffers are empty or a prefix shared by all candidates ('offered' means after the documented prefix filter).", ref="7 C15"),
  "C10": dict(level="fault_enumeration", engine="pure", technique="exhaustive crash-point enumeration: every byte offset of an append truncated on a real file, reopen, append, reopen, against a list reference model",
    text="All write histories up to the stated length over a 15-line alphabet (quotes, newlines, controls, multi-byte, U+2028, >64 KiB, blank, duplicates, JSON look-alikes) are written through the real file-backed history; the file is reopened and compared with the reference list; then every byte offset of the last append (thorough: of every append) is used as a crash point: truncate, reopen, append through a fresh instance, reopen.",
    note="Crash model = a byte prefix of a single O_APPEND write survives; fsync/power-loss reordering is outside the statement. Offsets inside the 70000-byte record are a stated subset.", ref="7 C10"),
